@@ -13,7 +13,7 @@ import (
 
 // C02 (broker role): receiver side of QoS 1/2.
 func C02(c *core.Ctx) {
-	c.Rep.Bound = "HIST, broker role: PUBLISH QoS 1 / QoS 2 (payload A), repeated PUBLISH with the same id (DUP, payload B), PUBREL, repeated PUBREL over packet ids {1,2}, an 8000-byte filler that wraps the rings, one subscriber granted QoS 2; BFS de-duplicated on model + implementation state to depth 6 (quick) / 8 (thorough) and every sequence to depth 4 (quick) / 5 (thorough); acknowledgements that start 0..11 bytes before the end of the publisher's outgoing ring; bursts of 1-36 exchanges in flight (every count, so the queue is exactly full at 16 and 32 and grows at 17 and 33) after 0-8 completed ones, released in three orders; client role: see C20/C12 harness (library Client against a scripted server)"
+	c.Rep.Bound = "HIST, broker role: PUBLISH QoS 1 / QoS 2 (payload A), repeated PUBLISH with the same id (DUP, payload B), PUBREL, repeated PUBREL over packet ids {1,2}, an 8000-byte filler that wraps the rings, one subscriber granted QoS 2; BFS de-duplicated on model + implementation state to depth 6 (quick) / 8 (thorough) and every sequence to depth 4 (quick) / 5 (thorough); acknowledgements that start 0..11 bytes before the end of the publisher's outgoing ring; bursts of 1-36 exchanges in flight (every count, so the queue is exactly full at 16 and 32 and grows at 17 and 33) after 0-8 completed ones, released in three orders; the same counts around 16 and 32 with an identifier used again for a new exchange (or a PUBLISH repeated) at the moment the queue is full; client role: see C20/C12 harness (library Client against a scripted server)"
 	c.Rep.Rule = "per packet one PUBACK/PUBREC/PUBCOMP with the same id; QoS 1 handed on once per PUBLISH; QoS 2 handed on at most once per exchange, never before its PUBREL, at the latest once its PUBREL and those of earlier exchanges are processed, with the content of the first PUBLISH; distinct = canonical model (open exchanges with released/delivered flags) + implementation state"
 	p8k := big(8000, 7)
 	var ops []Action
@@ -56,6 +56,10 @@ func C02(c *core.Ctx) {
 		return
 	}
 	c02burst(c, comps)
+	if c.HasViolation() || c.Expired() {
+		return
+	}
+	c02burstReuse(c, comps)
 	if c.HasViolation() || c.Expired() {
 		return
 	}
@@ -212,6 +216,84 @@ func c02burst(c *core.Ctx, comps map[string]bool) {
 	}
 	c.Rep.Scenarios++
 	c.Rep.Sample(map[string]interface{}{"search": "burst", "completed_before": []int{0, 3, 5, 8}, "in_flight": "1..36 (quick: 4,8,12,14..33)", "orders": []string{"fifo", "lifo", "rot5"}})
+}
+
+// c02burstReuse: the inbound queue is exactly full (16 or 32 exchanges open, or one below /
+// above) with its head moved by completed exchanges; a sender releases one exchange that is
+// not the oldest - it is completed (PUBCOMP) and its message held back behind the older ones -
+// and, free to use that identifier again, opens a new exchange with it at once (the
+// registration that would make the queue grow); or it repeats the PUBLISH of an exchange that
+// is still open (DUP).  Then everything is released, oldest first.  Every message is handed
+// on once, at its own PUBREL at the earliest, with its own content.
+func c02burstReuse(c *core.Ctx, comps map[string]bool) {
+	n := 0
+	for _, done := range []int{0, 3, 5} {
+		for _, inflight := range []int{15, 16, 17, 31, 32, 33} {
+			for _, j := range []int{1, inflight / 2, inflight - 1} {
+				for _, variant := range []string{"released, identifier used again", "open, PUBLISH repeated", "released + used again, another repeated"} {
+					n++
+					if c.NShards > 1 && n%c.NShards != c.Shard {
+						continue
+					}
+					if !c.Thorough() && inflight > 17 && done == 5 {
+						continue
+					}
+					if c.Expired() || c.HasViolation() {
+						return
+					}
+					hist := []Action{conn("S", "s", true), sub("S", 1, "t", 2), conn("X", "x", true)}
+					id := uint16(100)
+					for i := 0; i < done; i++ {
+						id++
+						hist = append(hist, Action{Kind: "pub2", Client: "X", Topic: "t", QoS: 2, ID: id, Payload: fmt.Sprintf("done-%d", i)})
+					}
+					var ids []uint16
+					for i := 0; i < inflight; i++ {
+						id++
+						ids = append(ids, id)
+						hist = append(hist, pub("X", "t", 2, id, fmt.Sprintf("m-%d", i)))
+					}
+					released := map[int]bool{}
+					again := false
+					if variant != "open, PUBLISH repeated" {
+						hist = append(hist, Action{Kind: "pubrel", Client: "X", ID: ids[j]})
+						hist = append(hist, pub("X", "t", 2, ids[j], fmt.Sprintf("m-%d-second", j)))
+						released[j] = true
+						again = true
+					}
+					if variant != "released, identifier used again" {
+						k := (j + 3) % inflight
+						a := pub("X", "t", 2, ids[k], fmt.Sprintf("m-%d", k))
+						a.Dup = true
+						hist = append(hist, a)
+					}
+					for i := range ids {
+						if !released[i] {
+							hist = append(hist, Action{Kind: "pubrel", Client: "X", ID: ids[i]})
+						}
+					}
+					if again {
+						hist = append(hist, Action{Kind: "pubrel", Client: "X", ID: ids[j]})
+					}
+					spec := &HistSpec{Name: "burst-reuse", Comps: comps}
+					r := spec.RunHistory(hist, false)
+					c.Rep.Evaluations++
+					c.Rep.Executions++
+					c.Rep.States++
+					c.Rep.Nontrivial++
+					c.Rep.Transitions += int64(r.Steps)
+					if r.Violation != "" {
+						rr := spec.RunHistory(hist, true)
+						if c.Violate("C02 burst-reuse :: "+violClass(r.Violation), core.Replay{Scenario: fmt.Sprintf("burst-reuse: %d completed exchanges, then %d QoS 2 exchanges in flight, exchange #%d %s", done, inflight, j, variant), Message: r.Violation, Log: tailS(rr.Trace, 30)}) {
+							return
+						}
+					}
+				}
+			}
+		}
+	}
+	c.Rep.Scenarios++
+	c.Rep.Sample(map[string]interface{}{"search": "burst-reuse", "completed_before": []int{0, 3, 5}, "in_flight": []int{15, 16, 17, 31, 32, 33}, "variants": 3})
 }
 
 func init() { core.Register("C02", C02) }
